@@ -252,6 +252,12 @@ async def _connect_and_send_request(req: ClientRequest) -> ClientResponse:
     except BaseException:
         conn.close()
         raise
+    # Every response feeds the jar, also one a middleware consumes (a 401
+    # challenge). Raw headers are used to preserve duplicates.
+    if resp._raw_cookie_headers:
+        req._session._cookie_jar.update_cookies_from_headers(
+            resp._raw_cookie_headers, resp.url
+        )
     return resp
 
 
@@ -768,12 +774,6 @@ class ClientSession:
                         if exc.errno is None and isinstance(exc, asyncio.TimeoutError):
                             raise
                         raise ClientOSError(*exc.args) from exc
-
-                    # Update cookies from raw headers to preserve duplicates
-                    if resp._raw_cookie_headers:
-                        self._cookie_jar.update_cookies_from_headers(
-                            resp._raw_cookie_headers, resp.url
-                        )
 
                     # redirects
                     if resp.status in (301, 302, 303, 307, 308) and allow_redirects:
